@@ -764,6 +764,13 @@ func (r *seqRun) execSimple(t []string) {
 	case "loadfrom":
 		// loadfrom <slot> <max|same>: a fresh cache of the same configuration (optionally another maximum)
 		target := otter.Must(r.options(false, t[2]))
+		if len(t) > 3 && t[3] == "used" {
+			// an EMPTIED cache instead of a fresh one: a history that leaves state behind in the policies (entries inserted,
+			// demoted to probation, promoted by reads, overwritten - with an oversized weight where the weigher table has
+			// one -, maximum lowered and restored), then InvalidateAll.  C19 speaks of "an empty cache of the same configuration".
+			r.useTarget(target)
+			name = strings.Join(t[:3], " ")
+		}
 		var err error
 		if atoi(t[1])%2 == 1 {
 			dir, derr := os.MkdirTemp("", "verifh-persist")
@@ -943,6 +950,69 @@ func (r *seqRun) execLoader(line string) {
 		}()
 		r.emit("end => %s%s", res, r.pollChans())
 	}
+}
+
+// useTarget gives a load target a past and then empties it (see "loadfrom ... used").
+func (r *seqRun) useTarget(c *otter.Cache[int, int]) {
+	const base = 100000
+	n := 24
+	light, heavy := 0, -1
+	if len(r.wt) > 0 {
+		mx := c.GetMaximum()
+		for v := 0; v < len(r.wt); v++ {
+			// value v for key base+i has weight wt[(base+i+v)%len]; pick per key below
+			_ = v
+		}
+		_ = mx
+	}
+	valFor := func(k int, wantHeavy bool) int {
+		if len(r.wt) == 0 {
+			return 1
+		}
+		mx := c.GetMaximum()
+		best := 0
+		for v := 0; v < len(r.wt); v++ {
+			w := uint64(r.wt[(k+v)%len(r.wt)])
+			if wantHeavy && w > mx {
+				return v
+			}
+			if !wantHeavy && w >= 1 && w <= 2 {
+				best = v
+			}
+		}
+		if wantHeavy {
+			return -1
+		}
+		return best
+	}
+	_, _ = light, heavy
+	for round := 0; round < 3; round++ {
+		for i := 0; i < n; i++ {
+			c.Set(base+i, valFor(base+i, false))
+		}
+		c.CleanUp()
+		for rep := 0; rep < 3; rep++ {
+			for i := 0; i < n; i++ {
+				c.GetIfPresent(base + i)
+			}
+			c.CleanUp()
+		}
+	}
+	for i := 0; i < n; i++ {
+		if v := valFor(base+i, true); v >= 0 {
+			c.Set(base+i, v) // an oversized replacement of an entry that may sit in any of the policy's queues
+		} else {
+			c.Set(base+i, valFor(base+i, false)+len(r.wt))
+		}
+	}
+	c.CleanUp()
+	if mx := c.GetMaximum(); mx > 1 && mx < 1<<62 {
+		c.SetMaximum(mx / 2)
+		c.CleanUp()
+		c.SetMaximum(mx)
+	}
+	c.InvalidateAll()
+	c.CleanUp()
 }
 
 // runScript executes the script text and writes the transcript.
